@@ -189,6 +189,11 @@ func (sc *c14Scenario) Run(s *simrt.Sim) {
 			for i := 0; i < sc.LateStart; i++ {
 				s.YieldHard()
 			}
+			if sc.LateStart%3 == 0 && !sc.Gated {
+				// ... and a long time later (callers wait for their answers as long as it takes)
+				s.Sleep(time.Duration(2+sc.LateStart) * time.Second)
+				sc.probes["target-started-seconds-after-the-first-requests"]++
+			}
 			if sc.Gated {
 				h.Do("late-starter", "StartWithVal", sc.v0, func() (interface{}, error) { target.StartWithVal(sc.v0); return nil, nil })
 			} else {
